@@ -60,6 +60,10 @@ type Channel struct {
 	// lastPkgRx/Tx are the last packages sent to/received from the TDS
 	// server
 	lastPkgRx, lastPkgTx Package
+	// rxDoneFinal is true if the last package passed to the consumer
+	// in the current message was a DonePackage with TDS_DONE_FINAL.
+	// lastPkgRx cannot be used for this as it outlives the message.
+	rxDoneFinal bool
 	// packageCh stores Packages as they are parsed from Packets
 	packageCh chan Package
 
@@ -671,9 +675,11 @@ func (tdsChan *Channel) tryParsePackage() bool {
 			// TDS doesn't always send a DonePackage with TDS_DONE_FINAL
 			// - usually only when a procedure with multiple commands is
 			// being executed.
-			if lastPkg, ok := tdsChan.lastPkgRx.(*DonePackage); !ok || lastPkg.Status != TDS_DONE_FINAL {
+			if !tdsChan.rxDoneFinal {
 				tdsChan.packageCh <- &DonePackage{Status: TDS_DONE_FINAL}
 			}
+			// The next message starts without a final DonePackage.
+			tdsChan.rxDoneFinal = false
 		}
 		return false
 	}
@@ -728,5 +734,6 @@ func (tdsChan *Channel) tryParsePackage() bool {
 
 	tdsChan.packageCh <- pkg
 	tdsChan.lastPkgRx = pkg
+	tdsChan.rxDoneFinal, _ = isDoneFinal(pkg)
 	return true
 }
